@@ -54,7 +54,7 @@ def _cases(ctx, nl):
     rng = random.Random(ctx.seed * 17 + 5)
     cases = []
     hist = {'lenses': 0, 'with_mirror': 0, 'catalogue_glass': 0, 'errors': {}}
-    corp = [c for c in lensgen.corpus() if c['name'] in ('mangin', 'image-in-glass', 'tir-planoconvex')]
+    corp = [c for c in lensgen.corpus() if c['name'] in ('mangin', 'image-in-glass', 'tir-planoconvex', 'window-before-stop', 'cemented')]
     for li in range(nl + len(corp)):
         spec = dict(corp[li]) if li < len(corp) else lensgen.gen_spec(rng, allow=['plane', 'standard'], decenter=False, mirrors=(li % 4 == 0))
         if max(f[0] for f in spec['fields']) == 0:
@@ -68,6 +68,8 @@ def _cases(ctx, nl):
         elif li >= len(corp) and li % 6 == 2 and not math.isinf(spec['object_thickness']):
             lensgen.immerse(spec, rng)       # object / image space not in air
             hist['immersed'] = hist.get('immersed', 0) + 1
+        if li >= len(corp) and li % 4 == 1:
+            hist['cemented_interfaces'] = hist.get('cemented_interfaces', 0) + lensgen.cement(spec, rng)
         if li >= len(corp) and li % 5 == 4 and len(spec['fields']) > 1:
             lensgen.reorder_fields(spec, rng)      # the full-field chief ray does not depend on the order of the field list
             hist['fields_reordered'] = hist.get('fields_reordered', 0) + 1
